@@ -139,7 +139,8 @@ type Exec struct {
 }
 
 func (x *Exec) violate(prop, oracle, class, detail string, facts map[string]string) {
-	if x.reusedRun && prop == "C08" {
+	if x.reusedRun && prop == "C08" && !(oracle == "S1" && (class == "skipped-without-sum-file" || class == "skipped-despite-force" || class == "skipped-without-all")) {
+		// (what needs no hash to decide is decided for a kept executor too: no gengo.sum, Force, no All)
 		return
 	}
 	if x.Sc != nil && x.Sc.OnlyOwnOracles && prop != x.Sc.Property && oracle != "X0" && oracle != "R1" {
